@@ -47,7 +47,7 @@ def Expl (s : EState) : Prop := TermSeen bt s ∨ PISeen bt s ∨ Refd nr s
 
 def J (s : EState) : Prop :=
   (∃ l, s.trans = bt ++ l) ∧ nr ≤ s.refused.length ∧
-  (s.state = .paused → s.permit = false → s.pc = .pausedWait) ∧
+  (s.state = .paused → (s.pc = .pausedWait ∨ s.pc = .exitSleep ∨ s.pc = .finished) ∧ (s.permit = false → s.pc = .pausedWait)) ∧
   (s.interrupted = true → Expl bt nr s ∨ s.state = .pausing ∨ (s.state = .paused ∧ s.permit = false))
 
 /-- the logs only grow -/
@@ -66,7 +66,7 @@ theorem J.of_same {a b : EState} (h : SameJ a b) (hb : J bt nr b) : J bt nr a :=
   obtain ⟨h1, h2, h3, h4, h5, h6⟩ := h
   obtain ⟨⟨l, hl⟩, b2, b3, b4⟩ := hb
   refine ⟨⟨l, h5.trans hl⟩, h6 ▸ b2, ?_, ?_⟩
-  · intro hs hp; rw [h4]; exact b3 (h1 ▸ hs) (h3 ▸ hp)
+  · intro hs; rw [h4, h3]; exact b3 (h1 ▸ hs)
   · intro hi
     rcases b4 (h2 ▸ hi) with he | hs | ⟨hs, hp⟩
     · exact Or.inl (he.mono ⟨⟨[], by rw [h5]; simp⟩, by rw [h6]; exact Nat.le_refl _⟩)
